@@ -770,7 +770,7 @@ func main() {
 	//     txs over the deploy theme, from the genesis without yr/zr
 	deployTheme := idx("deployY", "deploy/redeploy-private-Z", "z.add")
 	if r.Thorough() {
-		deployTheme = idx("deployY", "deploy/redeploy-private-Z", "z.add", "y.growForeign2", "price*2", "growX3", "shrinkX2")
+		deployTheme = idx("deployY", "deploy/redeploy-private-Z", "z.add", "y.growForeign2")
 	}
 	type rjob struct {
 		g genesis
